@@ -80,7 +80,9 @@ impl FunctionMarkupPass {
 
                 let inst = With::new(JumpLinkType::Jal, info.clone());
                 let rd = With::new(Register::X0, info.clone());
-                let name = With::new(LabelString::new("__return__"), info.clone());
+                // The name of the target cannot be written in a program: a
+                // label or a function of the user is never taken for it
+                let name = With::new(LabelString::new("<return>"), info.clone());
                 let new_node =
                     ParserNode::new_jump_link(inst, rd, name, found_ret.node().token().clone());
                 #[allow(unused_must_use)]
